@@ -75,6 +75,24 @@ static void vh_op(int argc, char **argv)
 		} else printf("bad-op\n");
 		return;
 	}
+	if (strcmp(op, "ff") == 0 && argc == 4) {
+		/* fast-forward (search only): `count` requests at start, start+step, ... through the explicit
+		 * check/update entry points; used to reach states only a very long history reaches (32-bit
+		 * counters). Prints the number admitted. */
+		uint64_t cnt = vh_ull(argv[1]), adm = 0;
+		int64_t now = vh_ll(argv[2]), step = vh_ll(argv[3]);
+		alarm(1500);
+		for (uint64_t i = 0; i < cnt; i++, now += step) {
+			bool r = g_kind == 1 ? muggle_flow_ctl_check(&g_fc, now) : muggle_fast_flow_ctl_check(&g_ffc, now);
+			if (r) {
+				adm++;
+				if (g_kind == 1) muggle_flow_ctl_update(&g_fc, now);
+				else muggle_fast_flow_ctl_update(&g_ffc, now);
+			}
+		}
+		printf("ok %" PRIu64 "\n", adm);
+		return;
+	}
 	if (strcmp(op, "dump") == 0) {
 		uint32_t n = g_kind == 1 ? g_fc.n : g_ffc.n;
 		uint32_t c = g_kind == 1 ? g_fc.cursor : g_ffc.cursor;
